@@ -1,4 +1,143 @@
-// unit `quote_range` -- skeleton
+// unit `quote_range` -- boundary-delimited iteration behind quotations (yrs/src/iter.rs: `RangeIter::{new, begin}`,
+// `<RangeIter as Iterator>::next`, `<RangeIter as DoubleEndedIterator>::next_back`; yrs/src/block.rs: `Item::{contains, id, len}`
+// (what `ItemPtr::contains(id)` derefs to); yrs/src/slice.rs: `ItemSlice::new`; yrs/src/sticky_index.rs: `StickyIndex::id`; one
+// statement of yrs/src/types/weak.rs `Quotable::quote`).
+// Serves C20 (KERNEL ONLY): "A quotation of a range of a text, array or XML child list ... dereferences at any later time and on
+// any replica to exactly the elements currently visible between its two boundary elements (boundaries included or excluded as
+// the range was given), including elements inserted inside the range after it was quoted and excluding deleted ones";
+// mechanism named by the property: "boundary-delimited iteration -- LinkSource::unquote, iter.rs RangeIter / within_range".
+// `LinkSource::unquote` is `BlockIter::new(parent.start).within_range(quote_start, quote_end).values()`: THIS unit is the
+// `within_range` stage (which unit ids lie between the two boundary elements, for EVERY block layout -- blocks get split and
+// squashed, items are inserted inside the range: the iterator only sees the current sequence of blocks).  NOT here: `Values`
+// (skips deleted items, reads the content of a slice), `LinkSource::{materialize, to_string, to_xml_string}`, the walk of
+// `quote` itself, `BlockIter`, that the ids of a collection keep their relative order on every replica (integration).
+//
+// THE CONVENTION (quoted from /repo):
+//   sticky_index.rs, `enum Assoc`:  "After:  The corresponding [StickyIndex] points to space **after** the referenced [ID]."
+//                                   "Before: The corresponding [StickyIndex] points to space **before** the referenced [ID]."
+//   weak.rs, `Quotable::quote`:     `range.start_bound()`: `Bound::Included(&i) => Some((i, Assoc::Before))`, `Bound::Excluded(&i) =>
+//                                   Some((i, Assoc::After))`, `Bound::Unbounded => None` (-> `IndexScope::from_branch(this)`, Assoc::Before);
+//                                   `range.end_bound()`: `Included(&i) => (i, Assoc::After)`, `Excluded(&i) => (i, Assoc::Before)`,
+//                                   `Unbounded` -> type-scoped, Assoc::After.  Doc: "Inclusive range (eg. `1..=2`) means, that any
+//                                   concurrent inserts that happen between indexes 2 and 3 will **not** be part of the quoted range.
+//                                   Exclusive range (eg. `1..3`) ... these inserts will be counted as a part of quoted range."
+//   sticky_index.rs, `StickyIndex::id`: "Returns `None` if current [StickyIndex] has been created on an empty shared collection (in
+//                                   that case there's no block that we can refer to)" -- i.e. Some(id) exactly for `IndexScope::Relative`.
+//   Hence, with S = the unit ids of the blocks in document order (block by block, clock by clock):
+//     start, Assoc::Before = the gap BEFORE the anchor unit: the range begins AT it (inclusive); Assoc::After = the gap behind it:
+//            the range begins with the NEXT unit (exclusive); no anchor id: from the first unit;
+//     end,   Assoc::After  = the gap behind the anchor unit: the range ends AT it (inclusive); Assoc::Before: it ends in FRONT of it
+//            (exclusive); no anchor id: to the last unit.
+//   (`StickyIndex::get_offset`, unit `sticky`, resolves Assoc the other way round -- After = the gap before the anchored unit.
+//   `RangeIter` and `quote` follow the doc comments of `Assoc`; noted, not a subject of this unit.)
+//
+// THE PROPERTY.  `lo(s, start)` / `hi(s, end)`: the positions in S = flat(s) of the first unit of the range / directly behind its
+//   last unit (`pos` = position of the anchor, `lemma_pos_index`: S[pos] == anchor; with pairwise disjoint blocks it is the only
+//   one, `lemma_pos_unique`);  expected(s, start, end) = S[lo .. hi)  (empty if hi < lo).
+//   theorem_quote_range: a RangeIter over the blocks `s` iterated with `next` until it returns None yields slices that are each a
+//     NON-EMPTY offset range start ..= end of ONE block of `s` (`slices_ok`), whose concatenation is EXACTLY expected(s, start, end)
+//     -- nothing before, nothing behind, in order, no id twice (`lemma_flat_nodup`); hi <= lo gives the EMPTY sequence -- on the
+//     WHOLE domain of the property (`prop_dom`): whenever both anchors occur, the end anchor is not in front of the start anchor.
+//     (The block-level domain `dom` of the code is larger: the BLOCK of the end anchor is not in front of the block of the
+//     start anchor; `lemma_dom_of_order`: prop_dom ==> dom.  OUTSIDE every contract: an end anchor in a block in front of the
+//     start block -- `begin` passes that block without looking for the end, the iteration runs to the end of S.  `quote` cannot
+//     produce it any more (Q2), only a hand-made link can.)
+//   DERIVED, not assumed: a start anchor that does not occur in S  -> nothing is yielded (lo = |S|);
+//                         an end anchor that does not occur in S   -> the iteration runs to the END of S (hi = |S|), the same as
+//                         for an end without anchor.  (So a quotation whose end element has left the list -- its parent was
+//                         deleted and collected -- would dereference to everything behind the start.  Not reachable while the
+//                         start element is still there: both live in the same list.)
+//
+// CONTRACTS (whole functions unless noted; `View` = (pending blocks of the inner iterator, state, start, end))
+//   Item::contains(id)        == covers_id(self, id): same client, clock in [id.clock, id.clock + len).  requires clock + len <= u32::MAX
+//                                (`self.id.clock + self.len()` is an unchecked u32 addition; holds for integrated blocks: A-CLK).
+//   Item::{id, len}, ItemSlice::new (requires start <= end: its debug_assert!, R9), StickyIndex::id (== id_spec()), RangeIter::new.
+//   RangeIter::begin          total on every sequence of `item_ok` blocks.  With l = start_landing(pending, start, end): not found ->
+//                                None, all blocks consumed, state unchanged; found -> state InRange, *start_offset = l.off, returns
+//                                block l.idx (None if the exclusive start was the last unit of the last block), pending = the blocks
+//                                behind it; `l.ended` (exclusive start on the last unit of a block that also holds the end anchor) ->
+//                                state Closed, None, the next block is NOT consumed.
+//   RangeIter::next           TOTAL: no precondition besides `item_ok` of the pending blocks (all u32 arithmetic and the
+//                                `ItemSlice::new` debug_assert are discharged for every input).
+//                                ensures (final view, r) == next_spec(old view): Closed -> None; InRange -> next pending block from
+//                                offset 0, cut by `end_cut`; Opened -> landing block from the landing offset, cut by `end_cut`;
+//                                end_cut: end anchor in this block -> state Closed and (After) offsets ..= eo, (Before) ..= eo - 1, or None
+//                                if that is in front of the slice start; otherwise the whole rest of the block, state InRange.
+//                                + the Q1 class (exclusive start, end at the same element) yields nothing, now or later.
+//     theorem_step (pure)     on `dom`: r is None <==> nothing is left; r = Some(sl): sl is a non-empty range of one pending block
+//                                and  rem(old) == slice_ids(sl) + rem(new)  (rem = the units still to be yielded).
+//     lemma_drain / theorem_quote_range: iterating to the end yields exactly expected(s, start, end).
+//   range_start_offset / range_end_cut (STEP level, R18 regions): the two boundary-offset computations on their own.
+//   quote_end_remaining (R18 region of `Quotable::quote`): the guard + `remaining = end_index - start_index + remaining;`: TOTAL on
+//                                every pair of indexes: Err(OutOfBounds) for end_index < start_index, else the new `remaining`.
+//   RangeIter::next_back      OBSERVATION QB, dead code.  Under contract against what the code DOES (`next_back_code`, requires the
+//                                weakest precondition of its `ItemSlice::new`).  What it SHOULD do: `next_back_ok(old view, new view,
+//                                r)` -- None iff nothing is left, else a non-empty slice of one pending block holding the LAST units
+//                                still to be yielded (rem_back(old) == rem_back(new) + slice_ids(sl)); `lemma_drain_back`: all calls
+//                                together yield exactly expected(..); `example_next_back_single_block`: satisfiable.
+//                                `observation_qb_*` PROVE that `next_back_code` violates `next_back_ok`.
+//   MIXED USE of next / next_back is OUTSIDE every contract: the iterator has ONE `state` for both ends.  After a `next` has
+//     entered the range (InRange) a `next_back` no longer looks for the end boundary (it takes the last pending block whole), and
+//     once either end reaches the other boundary's block, Closed stops BOTH ends although units between them may not have been
+//     yielded.  Only traversals that use one of the two methods exclusively are specified.
+//
+// FINDINGS (reproducer through the public API, feature `weak`: units/quote_range/repro/main.rs; observed on debug AND release
+//   builds of the tree before the repair; the repair is units/quote_range/repair.diff; this unit verifies the REPAIRED code)
+//   Q1  REPAIRED (was: next reached `ItemSlice::new` with start > end / `offset -= 1` at 0 / ran to the end of the list).  An
+//       EXCLUSIVE start and an end anchored at the SAME element: `array.quote(&txn, (Bound::Excluded(i), Bound::Included(i)))` or
+//       `(Excluded(i), Excluded(i))` (empty ranges; `quote` returns Ok: start = (id_i, After), end = (id_i, After | Before)).
+//       Expected: dereferences to nothing.  Observed before the repair:
+//         layout [0,1,2,3,4,5] = ONE block, i = 1 (not the last unit of its block): `begin` -> start_offset 2; end offset 1 ->
+//           `ItemSlice::new(ptr, 2, 1)`: debug `assertion failed: start <= end` (slice.rs:108); release: the inverted slice reaches
+//           Store::materialize when the link is inserted -> panic `Option::unwrap() on None` (store.rs:365) / `mid > len`;
+//           with end Before and i = 0: `offset -= 1` underflows (iter.rs:183);
+//         layout [0,1] [2,3] [4,5] = THREE blocks, i = 1 (the LAST unit of its block): `begin` moves to the next block, the end block
+//           is never seen again: unquote yields 2,3,4,5 -- everything up to the end of the array.
+//       Repair: `begin` closes the iterator when the block it leaves holds the end anchor; `next` returns None for an end cut at or
+//       in front of the slice start (`offset <= start_offset` for Before, `offset < start_offset` for After).  Obligations: the Q1
+//       clause of range_next::post, range_next / range_end_cut ::{overflow, pre}, range_start_offset::post.
+//   Q2  REPAIRED (in `Quotable::quote`, the producer of the boundaries; obligation quote_end_remaining::{overflow, post}).
+//       `remaining = end_index - start_index + remaining;` on an inverted (= empty) range: `array.quote(&txn, 3..=2)` / `3..1`.
+//       Before the repair: debug: panic `attempt to subtract with overflow` (weak.rs:748); release: wraps and RETURNS a quotation whose
+//       end anchor is IN FRONT of its start anchor (outside `dom`: `next` ran to the end of the list or built an inverted slice),
+//       inserting it panicked in Store::materialize.  Repair: `if end_index < start_index { return Err(QuoteError::OutOfBounds); }`.
+//   QB  OBSERVATION, DEAD CODE (no caller in the crate; `RangeIter` is pub(crate); and `BlockIter::next_back` walks LEFT from the
+//       same cursor, it is no double-ended iterator).  `next_back` is not the mirror image of `next`: (1) Opened, end without
+//       anchor: `end_offset = ptr.len()` -- one past the last unit (inclusive `end`) [observation_qb_end_one_past_the_block: one
+//       block of 2 units, no anchors: yields (ptr, 0, 2), i.e. the unit id clock + 2 that is not in the block]; (2) InRange:
+//       `end_offset` keeps its initial 0 -- every further block contributes its FIRST unit only [observation_qb_inner_blocks_lose_
+//       units], and in the start block `ItemSlice::new(ptr, start_offset, 0)` is inverted; (3) `end.assoc` is ignored (an exclusive
+//       end is yielded); (4) `start.assoc` is ignored (an exclusive start is yielded).  Not reachable through the public API.
+//   OBSERVATIONS outside this unit (not claimed; O3 is in the reproducer and NOT touched by repair.diff):
+//     O3  `LinkSource::materialize` starts its RangeIter at `quote_start.get_item()`, which for an exclusive start on the LAST unit
+//         of a block is the NEXT block: the sequence handed to `within_range` does not contain the start anchor, so -- by the
+//         derived rule above -- NOTHING is yielded and no item is marked as linked.  `unquote` (which iterates from `parent.start`)
+//         is right, but the link never fires an event: blocks [0,1] [2,3] [4,5], `quote((Excluded(1), Included(4)))`, two edits
+//         inside the range: 0 events (2 events for the same range spelled `2..=4`).
+//     O4  `WeakPrelim<TextRef>::get_string` on a quotation that has not been inserted yet returns whole blocks ("abcdef" for
+//         `text.quote(&txn, 1..=3)`): `LinkSource::to_string` does not use RangeIter, it compares the boundaries with block ends
+//         only, which coincide once `materialize` has split the blocks.
+//
+// ------------------------------------------------------------------------------------------------------------------
+// LOWERING AND STAND-IN TYPES (everything not listed is extracted verbatim from /repo on every run)
+//   I: Iterator<Item = ItemPtr>   STAND-IN trait `BlockSeqIter`: ghost `pending()` = the blocks not handed out yet, in document order;
+//                `next` returns pending[0] and leaves pending.skip(1); on an empty sequence None, nothing changes (a FUSED iterator;
+//                `BlockIter`, the only instantiation in the crate, is: it holds `Option<ItemPtr>`).  `BlockSeqDeIter::next_back`: the
+//                other end of the same sequence.  The impl headers `impl<I> .. where I: Iterator<Item = ItemPtr>` are template text
+//                (`impl<I: BlockSeqIter> RangeIter<I>`); the `Iterator::next` / `DoubleEndedIterator::next_back` impls are emitted as
+//                inherent methods (a trait-method impl cannot carry `requires`); `Self::Item` is spelled `ItemSlice` (SUB, logged).
+//   ItemPtr      real: `struct ItemPtr(NonNull<Item>)` with Deref.  here: `&'static Item` (read-only lowering R15).  ASSUMPTION A5: the
+//                pointees are alive and not mutated during the life of the iterator.
+//   Item         sliced to `id`, `len`.  DROPPED: left, right, origin, right_origin, content, parent, redone, parent_sub, info.
+//   ClientID     opaque, equality only.   Str: opaque, stands for `Arc<str>` in `IndexScope::Root` (never inspected).
+//   ASSUMPTION A-CLK (`item_ok`): every block has len >= 1 (`Item::new` refuses empty content) and id.clock + len <= u32::MAX (the
+//                client's next clock is a u32).  `disjoint`: no unit id in two blocks (block store invariant); used only by the
+//                "exactly once" statements, NOT by the contracts of begin / next / next_back.
+//   Field visibility (`pub` added to the fields of RangeIter / StickyIndex, `pub enum RangeIterState`): SUB, logged.
+//   REWRITE of a construct Verus mishandles (same meaning, logged, `next` and `next_back`): see `vx_only_in` below.
+//   QuoteError   STAND-IN enum with the real single variant `OutOfBounds` (the real one carries a thiserror helper attribute).
+// TRUSTED: nothing of its own.  `vx_unreachable` (vx/prelude.rs) is included but unused.  No assume / admit / external_body.
+// ------------------------------------------------------------------------------------------------------------------
 #![allow(unused_imports, unused_variables, unused_mut, dead_code, unused_parens, unused_braces, unused_assignments)]
 use vstd::prelude::*;
 
@@ -15,6 +154,9 @@ pub mod vx_base {
 }
 use vx_base::vx_unreachable;
 
+// ---------------------------------------------------------------------------------------------
+// stand-ins and real declarations
+// ---------------------------------------------------------------------------------------------
 #[derive(PartialEq, Eq, Structural, Clone, Copy)]
 pub struct Str(pub u64);
 
@@ -31,6 +173,7 @@ pub struct ClientID(pub u64);
 
 /*@extract yrs/src/sticky_index.rs | - | struct StickyIndex | rules=SUB(from=scope: IndexScope;;to=pub scope: IndexScope) @*/
 
+/// sliced, see the table at the top
 pub struct Item {
     pub id: ID,
     pub len: u32,
@@ -41,10 +184,1288 @@ pub type ItemPtr = &'static Item;
 /*@extract yrs/src/slice.rs | - | struct ItemSlice @*/
 
 #[derive(Copy, Clone, PartialEq, Eq, Structural)]
-/*@extract yrs/src/iter.rs | - | enum RangeIterState @*/
+/*@extract yrs/src/iter.rs | - | enum RangeIterState | rules=SUB(from=enum RangeIterState;;to=pub enum RangeIterState) @*/
 
-/*@extract yrs/src/iter.rs | - | struct RangeIter @*/
+/*@extract yrs/src/iter.rs | - | struct RangeIter | rules=SUB(from=iter: I,;;to=pub iter: I,) SUB(from=start: StickyIndex,;;to=pub start: StickyIndex,) SUB(from=end: StickyIndex,;;to=pub end: StickyIndex,) SUB(from=state: RangeIterState,;;to=pub state: RangeIterState,) @*/
 
+// ---------------------------------------------------------------------------------------------
+// specification, part 1: blocks, unit ids, boundaries
+// ---------------------------------------------------------------------------------------------
+/// the block `p` holds the unit `id`: same client, clock in [p.id.clock, p.id.clock + p.len)
+pub open spec fn covers_id(p: &Item, id: ID) -> bool {
+    p.id.client == id.client && p.id.clock <= id.clock < p.id.clock + p.len
+}
+
+/// an integrated block: at least one unit, and its clock range fits u32 (the client's next clock `id.clock + len` is a u32)
+pub open spec fn item_ok(p: &Item) -> bool {
+    1 <= p.len && p.id.clock + p.len <= u32::MAX
+}
+
+pub open spec fn items_ok(s: Seq<ItemPtr>) -> bool {
+    forall|i: int| 0 <= i < s.len() ==> item_ok(#[trigger] s[i])
+}
+
+/// no unit id lies in two blocks of the sequence
+pub open spec fn disjoint(s: Seq<ItemPtr>) -> bool {
+    forall|i: int, j: int, id: ID| 0 <= i < j < s.len() && #[trigger] covers_id(s[i], id) ==> !#[trigger] covers_id(s[j], id)
+}
+
+/// the unit ids at offsets a ..= b of block `p`
+pub open spec fn ids_of(p: &Item, a: int, b: int) -> Seq<ID> {
+    Seq::new((if b + 1 >= a { b + 1 - a } else { 0 }) as nat, |k: int| ID { client: p.id.client, clock: (p.id.clock + a + k) as u32 })
+}
+
+/// all unit ids of a block
+pub open spec fn block_ids(p: &Item) -> Seq<ID> {
+    ids_of(p, 0, p.len - 1)
+}
+
+/// the unit ids a slice stands for: offsets start ..= end of ONE item
+pub open spec fn slice_ids(sl: ItemSlice) -> Seq<ID> {
+    ids_of(sl.ptr, sl.start as int, sl.end as int)
+}
+
+/// S: the unit ids of a sequence of blocks, block by block, clock by clock
+pub open spec fn flat(s: Seq<ItemPtr>) -> Seq<ID>
+    decreases s.len(),
+{
+    if s.len() == 0 {
+        Seq::empty()
+    } else {
+        block_ids(s[0]) + flat(s.skip(1))
+    }
+}
+
+/// |S|
+pub open spec fn total(s: Seq<ItemPtr>) -> int
+    decreases s.len(),
+{
+    if s.len() == 0 {
+        0
+    } else {
+        s[0].len + total(s.skip(1))
+    }
+}
+
+/// index of the first block that holds `id`; `s.len()` if there is none
+pub open spec fn find(s: Seq<ItemPtr>, id: ID) -> int
+    decreases s.len(),
+{
+    if s.len() == 0 {
+        0
+    } else if covers_id(s[0], id) {
+        0
+    } else {
+        1 + find(s.skip(1), id)
+    }
+}
+
+/// `id` occurs in S
+pub open spec fn occurs(s: Seq<ItemPtr>, id: ID) -> bool {
+    find(s, id) < s.len()
+}
+
+/// position of (the first occurrence of) `id` in S; |S| if it does not occur
+pub open spec fn pos(s: Seq<ItemPtr>, id: ID) -> int
+    decreases s.len(),
+{
+    if s.len() == 0 {
+        0
+    } else if covers_id(s[0], id) {
+        id.clock - s[0].id.clock
+    } else {
+        s[0].len + pos(s.skip(1), id)
+    }
+}
+
+impl StickyIndex {
+    /// `StickyIndex::id()`: the anchor element of a block-relative sticky index, None for a type-scoped one
+    pub open spec fn id_spec(&self) -> Option<ID> {
+        match self.scope {
+            IndexScope::Relative(id) => Some(id),
+            _ => None,
+        }
+    }
+}
+
+/// THE CONVENTION (see the header): position in S of the first unit of the range.
+/// no anchor = from the first unit; Assoc::Before = AT the anchor unit (inclusive); Assoc::After = directly after it (exclusive);
+/// an anchor that does not occur: |S| (nothing is in the range)
+pub open spec fn lo(s: Seq<ItemPtr>, start: StickyIndex) -> int {
+    match start.id_spec() {
+        None => 0,
+        Some(a) => if !occurs(s, a) { total(s) } else if start.assoc == Assoc::After { pos(s, a) + 1 } else { pos(s, a) },
+    }
+}
+
+/// position in S directly behind the last unit of the range.
+/// no anchor = behind the last unit; Assoc::After = behind the anchor unit (inclusive); Assoc::Before = AT the anchor unit
+/// (exclusive); an anchor that does not occur: |S| (DERIVED from the code: the iteration runs to the end)
+pub open spec fn hi(s: Seq<ItemPtr>, end: StickyIndex) -> int {
+    match end.id_spec() {
+        None => total(s),
+        Some(e) => if !occurs(s, e) { total(s) } else if end.assoc == Assoc::After { pos(s, e) + 1 } else { pos(s, e) },
+    }
+}
+
+/// THE PROPERTY: the units between the two boundaries
+pub open spec fn expected(s: Seq<ItemPtr>, start: StickyIndex, end: StickyIndex) -> Seq<ID> {
+    if lo(s, start) <= hi(s, end) {
+        flat(s).subrange(lo(s, start), hi(s, end))
+    } else {
+        Seq::empty()
+    }
+}
+
+/// DOMAIN of the forward traversal (block level): if both anchors occur, the block of the end anchor is not in front of the block
+/// of the start anchor.  It contains the WHOLE domain of the property -- the end anchor occurs at or behind the start anchor,
+/// pos(start) <= pos(end): `lemma_dom_of_order` -- and every layout with both anchors in the same block, in any order.
+pub open spec fn dom(s: Seq<ItemPtr>, start: StickyIndex, end: StickyIndex) -> bool {
+    start.id_spec() is Some && end.id_spec() is Some && occurs(s, start.id_spec().unwrap()) && occurs(s, end.id_spec().unwrap())
+        ==> find(s, start.id_spec().unwrap()) <= find(s, end.id_spec().unwrap())
+}
+
+/// THE DOMAIN OF THE PROPERTY: if both anchors occur in S, the end anchor is not in front of the start anchor
+pub open spec fn prop_dom(s: Seq<ItemPtr>, start: StickyIndex, end: StickyIndex) -> bool {
+    start.id_spec() is Some && end.id_spec() is Some && occurs(s, start.id_spec().unwrap()) && occurs(s, end.id_spec().unwrap())
+        ==> pos(s, start.id_spec().unwrap()) <= pos(s, end.id_spec().unwrap())
+}
+
+/// FINDING Q1 (REPAIRED), input class: an exclusive start and an end anchored at the SAME element (the empty ranges
+/// `(Excluded(i), Included(i))` and `(Excluded(i), Excluded(i))` of `Quotable::quote`)
+pub open spec fn finding_q1_same_anchor_exclusive_start(start: StickyIndex, end: StickyIndex) -> bool {
+    start.id_spec() is Some && end.id_spec() == start.id_spec() && start.assoc == Assoc::After
+}
+
+// ---------------------------------------------------------------------------------------------
+// specification, part 2: the iterator, block level
+// ---------------------------------------------------------------------------------------------
+/// ghost view of a `RangeIter`: the blocks the inner iterator has not handed out yet (document order) + the three fields
+pub struct View {
+    pub s: Seq<ItemPtr>,
+    pub state: RangeIterState,
+    pub start: StickyIndex,
+    pub end: StickyIndex,
+}
+
+/// where the range begins: block index into the pending sequence (`s.len()` = behind the last block) and offset inside it
+/// `ended`: the exclusive start was the last unit of its block AND that block also holds the end anchor -- the range is empty
+pub struct Landing {
+    pub found: bool,
+    pub ended: bool,
+    pub idx: int,
+    pub off: int,
+}
+
+pub open spec fn start_landing(s: Seq<ItemPtr>, start: StickyIndex, end: StickyIndex) -> Landing {
+    match start.id_spec() {
+        None => Landing { found: s.len() > 0, ended: false, idx: 0, off: 0 },
+        Some(a) => {
+            let i = find(s, a);
+            if i >= s.len() {
+                Landing { found: false, ended: false, idx: s.len() as int, off: 0 }
+            } else {
+                let off = a.clock - s[i].id.clock;
+                if start.assoc == Assoc::After {
+                    if off + 1 == s[i].len {
+                        // the range begins with the next block -- unless it ends in the block that is left
+                        Landing { found: true, ended: end.id_spec() is Some && covers_id(s[i], end.id_spec().unwrap()), idx: i + 1, off: 0 }
+                    } else {
+                        Landing { found: true, ended: false, idx: i, off: off + 1 }
+                    }
+                } else {
+                    Landing { found: true, ended: false, idx: i, off: off }
+                }
+            }
+        },
+    }
+}
+
+/// what the end boundary leaves of block `p` from offset `so` on: `closes` = p is the end block; `out` = offsets (first, last)
+/// of the slice, None = nothing of this block is in the range
+pub struct Cut {
+    pub closes: bool,
+    pub out: Option<(int, int)>,
+}
+
+pub open spec fn end_cut(p: &Item, so: int, end: StickyIndex) -> Cut {
+    if end.id_spec() is Some && covers_id(p, end.id_spec().unwrap()) {
+        let eo = end.id_spec().unwrap().clock - p.id.clock;
+        if end.assoc == Assoc::Before {
+            if eo <= so {
+                Cut { closes: true, out: None }
+            } else {
+                Cut { closes: true, out: Some((so, eo - 1)) }
+            }
+        } else {
+            if eo < so {
+                Cut { closes: true, out: None }
+            } else {
+                Cut { closes: true, out: Some((so, eo)) }
+            }
+        }
+    } else {
+        Cut { closes: false, out: Some((so, p.len - 1)) }
+    }
+}
+
+pub open spec fn cut_slice(p: ItemPtr, c: Cut) -> Option<ItemSlice> {
+    match c.out {
+        Some((a, b)) => Some(ItemSlice { ptr: p, start: a as u32, end: b as u32 }),
+        None => None,
+    }
+}
+
+pub open spec fn cut_ids(p: &Item, c: Cut) -> Seq<ID> {
+    match c.out {
+        Some((a, b)) => ids_of(p, a, b),
+        None => Seq::empty(),
+    }
+}
+
+pub open spec fn step(v: View, p: ItemPtr, so: int, rest: Seq<ItemPtr>) -> (View, Option<ItemSlice>) {
+    let c = end_cut(p, so, v.end);
+    (View { s: rest, state: if c.closes { RangeIterState::Closed } else { RangeIterState::InRange }, start: v.start, end: v.end }, cut_slice(p, c))
+}
+
+/// PER-CALL CONTRACT of `<RangeIter as Iterator>::next`: the new state / remaining inner sequence and the slice returned
+pub open spec fn next_spec(v: View) -> (View, Option<ItemSlice>) {
+    match v.state {
+        RangeIterState::Closed => (v, None),
+        RangeIterState::InRange => if v.s.len() == 0 { (v, None) } else { step(v, v.s[0], 0, v.s.skip(1)) },
+        RangeIterState::Opened => {
+            let l = start_landing(v.s, v.start, v.end);
+            if !l.found {
+                (View { s: Seq::empty(), state: v.state, start: v.start, end: v.end }, None)
+            } else if l.ended {
+                (View { s: v.s.skip(l.idx), state: RangeIterState::Closed, start: v.start, end: v.end }, None)
+            } else if l.idx >= v.s.len() {
+                (View { s: Seq::empty(), state: RangeIterState::InRange, start: v.start, end: v.end }, None)
+            } else {
+                step(v, v.s[l.idx], l.off, v.s.skip(l.idx + 1))
+            }
+        },
+    }
+}
+
+// TOTALITY: `next` has NO precondition besides `item_ok` of the pending blocks.  `start.clock - ptr.id().clock` and
+// `end.clock - ptr.id().clock` are guarded by `contains`; `offset += 1` is bounded by the block length; `ptr.len() - 1` needs
+// len >= 1; `offset -= 1` is guarded by `offset > start_offset >= 0`; `ItemSlice::new(ptr, start_offset, end_offset)` is reached
+// with start_offset <= end_offset only (an end cut in front of the slice start returns None).
+
+/// the units still to be yielded
+pub open spec fn rem(v: View) -> Seq<ID> {
+    match v.state {
+        RangeIterState::Closed => Seq::empty(),
+        RangeIterState::InRange => flat(v.s).subrange(0, hi(v.s, v.end)),
+        RangeIterState::Opened => expected(v.s, v.start, v.end),
+    }
+}
+
+/// `(w, r) == next_spec(v)`, with the sequence component compared extensionally
+pub open spec fn next_post(v: View, w: View, r: Option<ItemSlice>) -> bool {
+    &&& w.s =~= next_spec(v).0.s
+    &&& w.state == next_spec(v).0.state
+    &&& w.start == next_spec(v).0.start
+    &&& w.end == next_spec(v).0.end
+    &&& r == next_spec(v).1
+}
+
+pub open spec fn view_dom(v: View) -> bool {
+    v.state == RangeIterState::Opened ==> dom(v.s, v.start, v.end)
+}
+
+// ---------------------------------------------------------------------------------------------
+// specification, part 3: the iterator from the other end (`next_back`).  No block-level mirror of the code is given (the code
+// on the pinned tree is not a mirror image of `next`, see FINDING QB); the per-call contract is stated directly over the units
+// still to be yielded, so that every correct implementation satisfies it.
+// ---------------------------------------------------------------------------------------------
+/// the units still to be yielded by a traversal that uses `next_back` only: `s` = the blocks the inner iterator has not handed
+/// out yet (its BACK end is consumed)
+pub open spec fn rem_back(v: View) -> Seq<ID> {
+    match v.state {
+        RangeIterState::Closed => Seq::empty(),
+        RangeIterState::InRange => if lo(v.s, v.start) <= total(v.s) { flat(v.s).subrange(lo(v.s, v.start), total(v.s)) } else { Seq::empty() },
+        RangeIterState::Opened => expected(v.s, v.start, v.end),
+    }
+}
+
+/// DOMAIN of the backward traversal: both anchors are absent or occur (a traversal from the back cannot know that an anchor will
+/// never show up before it has handed out blocks), and the end anchor is not in front of the start anchor
+pub open spec fn dom_back(v: View) -> bool {
+    v.state == RangeIterState::Opened ==> {
+        &&& v.start.id_spec() is Some ==> occurs(v.s, v.start.id_spec().unwrap())
+        &&& v.end.id_spec() is Some ==> occurs(v.s, v.end.id_spec().unwrap())
+        &&& v.start.id_spec() is Some && v.end.id_spec() is Some ==> pos(v.s, v.start.id_spec().unwrap()) <= pos(v.s, v.end.id_spec().unwrap())
+    }
+}
+
+/// PER-CALL CONTRACT of `<RangeIter as DoubleEndedIterator>::next_back`: None exactly when nothing is left; otherwise a
+/// NON-EMPTY slice of ONE pending block holding the LAST units still to be yielded; what is pending afterwards is a prefix of
+/// what was pending
+pub open spec fn next_back_ok(v: View, w: View, r: Option<ItemSlice>) -> bool {
+    &&& w.start == v.start && w.end == v.end
+    &&& w.s.is_prefix_of(v.s)
+    &&& match r {
+        None => rem_back(v).len() == 0 && rem_back(w).len() == 0,
+        Some(sl) => v.s.contains(sl.ptr) && sl.start <= sl.end < sl.ptr.len && rem_back(v) == rem_back(w) + slice_ids(sl),
+    }
+}
+
+/// the units of a run of slices yielded from the back, in DOCUMENT order (the slice yielded first comes last)
+pub open spec fn concat_back(outs: Seq<ItemSlice>) -> Seq<ID>
+    decreases outs.len(),
+{
+    if outs.len() == 0 {
+        Seq::empty()
+    } else {
+        concat_back(outs.skip(1)) + slice_ids(outs[0])
+    }
+}
+
+/// `vs[i]` is the iterator before the i-th call of `next_back`, `outs[i]` the slice that call returns; `vs.last()` is the
+/// iterator after the call that returned None
+pub open spec fn is_trace_back(vs: Seq<View>, outs: Seq<ItemSlice>) -> bool {
+    &&& vs.len() == outs.len() + 2
+    &&& forall|i: int| 0 <= i < outs.len() ==> next_back_ok(#[trigger] vs[i], vs[i + 1], Some(outs[i]))
+    &&& next_back_ok(vs[outs.len() as int], vs[outs.len() as int + 1], None)
+}
+
+/// DRAIN LEMMA, from the back: all the calls together yield exactly the units still to be yielded at the beginning
+pub proof fn lemma_drain_back(vs: Seq<View>, outs: Seq<ItemSlice>)
+    requires
+        is_trace_back(vs, outs),
+    ensures
+        concat_back(outs) == rem_back(vs[0]),
+    decreases outs.len(),
+{
+    if outs.len() == 0 {
+        assert(rem_back(vs[0]) =~= Seq::<ID>::empty());
+    } else {
+        let vt = vs.skip(1);
+        let ot = outs.skip(1);
+        assert(next_back_ok(vs[0], vs[1], Some(outs[0])));
+        assert(vt[0] == vs[1]);
+        assert forall|i: int| 0 <= i < ot.len() implies next_back_ok(#[trigger] vt[i], vt[i + 1], Some(ot[i])) by {
+            assert(vt[i] == vs[i + 1]);
+            assert(vt[i + 1] == vs[i + 2]);
+            assert(ot[i] == outs[i + 1]);
+            assert(next_back_ok(vs[i + 1], vs[i + 2], Some(outs[i + 1])));
+        }
+        assert(vt[ot.len() as int] == vs[outs.len() as int]);
+        assert(vt[ot.len() as int + 1] == vs[outs.len() as int + 1]);
+        lemma_drain_back(vt, ot);
+    }
+}
+
+// ---- OBSERVATION QB: what `next_back` on the pinned tree DOES compute (dead code: no caller in the crate).  It is under contract
+// against THIS description (so the disagreement below is about real code), and `observation_qb_*` prove that the description
+// violates the per-call contract `next_back_ok` above: `next_back` is not the mirror image of `next`.
+/// index of the last block that holds `id`; -1 if there is none
+pub open spec fn rfind(s: Seq<ItemPtr>, id: ID) -> int
+    decreases s.len(),
+{
+    if s.len() == 0 {
+        -1
+    } else if covers_id(s.last(), id) {
+        s.len() - 1
+    } else {
+        rfind(s.drop_last(), id)
+    }
+}
+
+/// the block at which the code enters the range from the back: the last block if the end has no anchor, else the last block
+/// holding the end anchor; -1: none
+pub open spec fn back_entry(s: Seq<ItemPtr>, end: StickyIndex) -> int {
+    match end.id_spec() {
+        None => s.len() - 1,
+        Some(e) => rfind(s, e),
+    }
+}
+
+/// the `end_offset` the code computes for the entry block `p`: the block LENGTH if the end has no anchor (one past the last unit),
+/// the offset of the end anchor otherwise -- `end.assoc` is not consulted
+pub open spec fn back_entry_offset(p: &Item, end: StickyIndex) -> int {
+    match end.id_spec() {
+        None => p.len as int,
+        Some(e) => e.clock - p.id.clock,
+    }
+}
+
+/// the slice the code builds from block `p` with the given `end_offset`: from the start anchor (if `p` holds it; `start.assoc`
+/// is not consulted) or from offset 0
+pub open spec fn step_back_code(v: View, p: ItemPtr, eo: int, rest: Seq<ItemPtr>) -> (View, Option<ItemSlice>) {
+    if v.start.id_spec() is Some && covers_id(p, v.start.id_spec().unwrap()) {
+        (View { s: rest, state: RangeIterState::Closed, start: v.start, end: v.end },
+            Some(ItemSlice { ptr: p, start: (v.start.id_spec().unwrap().clock - p.id.clock) as u32, end: eo as u32 }))
+    } else {
+        (View { s: rest, state: RangeIterState::InRange, start: v.start, end: v.end }, Some(ItemSlice { ptr: p, start: 0, end: eo as u32 }))
+    }
+}
+
+pub open spec fn next_back_code(v: View) -> (View, Option<ItemSlice>) {
+    match v.state {
+        RangeIterState::Closed => (v, None),
+        // `end_offset` keeps its initial value 0
+        RangeIterState::InRange => if v.s.len() == 0 { (v, None) } else { step_back_code(v, v.s.last(), 0, v.s.drop_last()) },
+        RangeIterState::Opened => {
+            let j = back_entry(v.s, v.end);
+            if j < 0 {
+                (View { s: Seq::empty(), state: v.state, start: v.start, end: v.end }, None)
+            } else {
+                step_back_code(v, v.s[j], back_entry_offset(v.s[j], v.end), v.s.take(j))
+            }
+        },
+    }
+}
+
+/// weakest precondition of `ItemSlice::new(ptr, start_offset, end_offset)` in `next_back` (its debug_assert!(start <= end))
+pub open spec fn next_back_code_total(v: View) -> bool {
+    let a = v.start.id_spec();
+    match v.state {
+        RangeIterState::Closed => true,
+        RangeIterState::InRange => v.s.len() > 0 && a is Some && covers_id(v.s.last(), a.unwrap()) ==> a.unwrap().clock == v.s.last().id.clock,
+        RangeIterState::Opened => {
+            let j = back_entry(v.s, v.end);
+            j >= 0 && a is Some && covers_id(v.s[j], a.unwrap()) ==> a.unwrap().clock - v.s[j].id.clock <= back_entry_offset(v.s[j], v.end)
+        },
+    }
+}
+
+pub open spec fn next_back_code_post(v: View, w: View, r: Option<ItemSlice>) -> bool {
+    &&& w.s =~= next_back_code(v).0.s
+    &&& w.state == next_back_code(v).0.state
+    &&& w.start == next_back_code(v).0.start
+    &&& w.end == next_back_code(v).0.end
+    &&& r == next_back_code(v).1
+}
+
+pub proof fn lemma_rfind_bounds(s: Seq<ItemPtr>, id: ID)
+    ensures
+        -1 <= rfind(s, id) < s.len(),
+        forall|i: int| rfind(s, id) < i < s.len() ==> !covers_id(#[trigger] s[i], id),
+        rfind(s, id) >= 0 ==> covers_id(s[rfind(s, id)], id),
+    decreases s.len(),
+{
+    if s.len() > 0 && !covers_id(s.last(), id) {
+        let t = s.drop_last();
+        lemma_rfind_bounds(t, id);
+        assert forall|i: int| rfind(s, id) < i < s.len() implies !covers_id(#[trigger] s[i], id) by {
+            if i < s.len() - 1 {
+                assert(s[i] == t[i]);
+            }
+        }
+        if rfind(s, id) >= 0 {
+            assert(s[rfind(s, id)] == t[rfind(t, id)]);
+        }
+    }
+}
+
+/// OBSERVATION QB, 1: ONE pending block of 2 units, no anchors (the whole block is the range).  The code is total here and
+/// yields the slice (p, 0, 2): its last offset is one PAST the block -- the unit id clock + 2 is not in the block, and the call
+/// violates the per-call contract
+pub proof fn observation_qb_end_one_past_the_block(p: ItemPtr, start: StickyIndex, end: StickyIndex)
+    requires
+        item_ok(p),
+        p.len == 2,
+        start.id_spec() is None,
+        end.id_spec() is None,
+    ensures
+        ({
+            let v = View { s: seq![p], state: RangeIterState::Opened, start: start, end: end };
+            let (w, r) = next_back_code(v);
+            &&& next_back_code_total(v) && dom_back(v) && items_ok(v.s) && disjoint(v.s)
+            &&& r == Some(ItemSlice { ptr: p, start: 0, end: 2 })
+            &&& !covers_id(p, slice_ids(r.unwrap())[2])
+            &&& !next_back_ok(v, w, r)
+        }),
+{
+    let s = seq![p];
+    assert(s[0] == p);
+    assert(s.take(0) =~= Seq::<ItemPtr>::empty());
+    let sl = ItemSlice { ptr: p, start: 0, end: 2 };
+    assert(slice_ids(sl)[2] == ID { client: p.id.client, clock: (p.id.clock + 2) as u32 });
+}
+
+/// OBSERVATION QB, 2: TWO pending blocks of 2 units each, inclusive end anchor = the last unit of the second block, no start
+/// anchor.  The first call yields (p1, 0, 1) -- right --, the second call (state InRange) yields (p0, 0, 0): the FIRST unit of
+/// the block only; its second unit is never yielded, the call violates the per-call contract
+pub proof fn observation_qb_inner_blocks_lose_units(p0: ItemPtr, p1: ItemPtr, start: StickyIndex, end: StickyIndex)
+    requires
+        item_ok(p0) && item_ok(p1),
+        p0.len == 2 && p1.len == 2,
+        forall|id: ID| covers_id(p0, id) ==> !covers_id(p1, id),
+        start.id_spec() is None,
+        end.id_spec() == Some(ID { client: p1.id.client, clock: (p1.id.clock + 1) as u32 }) && end.assoc == Assoc::After,
+    ensures
+        ({
+            let v0 = View { s: seq![p0, p1], state: RangeIterState::Opened, start: start, end: end };
+            let (v1, r1) = next_back_code(v0);
+            let (v2, r2) = next_back_code(v1);
+            &&& next_back_code_total(v0) && next_back_code_total(v1)
+            &&& r1 == Some(ItemSlice { ptr: p1, start: 0, end: 1 }) && v1.s == seq![p0] && v1.state == RangeIterState::InRange
+            &&& r2 == Some(ItemSlice { ptr: p0, start: 0, end: 0 })
+            &&& rem_back(v1) == block_ids(p0)
+            &&& !next_back_ok(v1, v2, r2)
+        }),
+{
+    let s = seq![p0, p1];
+    let e = end.id_spec().unwrap();
+    assert(s[0] == p0 && s[1] == p1 && s.last() == p1);
+    assert(covers_id(p1, e));
+    assert(rfind(s, e) == 1);
+    assert(s.take(1) =~= seq![p0]);
+    let v1 = next_back_code(View { s: s, state: RangeIterState::Opened, start: start, end: end }).0;
+    let s1 = seq![p0];
+    assert(v1.s == s1);
+    assert(s1[0] == p0 && s1.last() == p0);
+    assert(s1.drop_last() =~= Seq::<ItemPtr>::empty());
+    // what is left after the first call: the whole block p0
+    assert(items_ok(s1));
+    lemma_flat_len(s1);
+    assert(total(s1.skip(1)) == 0);
+    assert(flat(s1.skip(1)) =~= Seq::<ID>::empty());
+    assert(flat(s1) =~= block_ids(p0));
+    assert(rem_back(v1) =~= block_ids(p0));
+    // the second call accounts for one unit only
+    let v2 = next_back_code(v1).0;
+    assert(rem_back(v2).len() == 0) by {
+        assert(v2.s =~= Seq::<ItemPtr>::empty());
+        assert(total(v2.s) == 0);
+        assert(flat(v2.s) =~= Seq::<ID>::empty());
+    }
+    assert(slice_ids(ItemSlice { ptr: p0, start: 0, end: 0 }).len() == 1);
+    assert(block_ids(p0).len() == 2);
+}
+
+// ---------------------------------------------------------------------------------------------
+// lemmas
+// ---------------------------------------------------------------------------------------------
+pub proof fn lemma_find_bounds(s: Seq<ItemPtr>, id: ID)
+    ensures
+        0 <= find(s, id) <= s.len(),
+        forall|i: int| 0 <= i < find(s, id) ==> !covers_id(#[trigger] s[i], id),
+        find(s, id) < s.len() ==> covers_id(s[find(s, id)], id),
+    decreases s.len(),
+{
+    if s.len() > 0 && !covers_id(s[0], id) {
+        let t = s.skip(1);
+        lemma_find_bounds(t, id);
+        assert forall|i: int| 0 <= i < find(s, id) implies !covers_id(#[trigger] s[i], id) by {
+            if i > 0 {
+                assert(s[i] == t[i - 1]);
+            }
+        }
+        if find(s, id) < s.len() {
+            assert(s[find(s, id)] == t[find(t, id)]);
+        }
+    }
+}
+
+pub proof fn lemma_flat_len(s: Seq<ItemPtr>)
+    requires
+        items_ok(s),
+    ensures
+        flat(s).len() == total(s),
+        total(s) >= 0,
+    decreases s.len(),
+{
+    if s.len() > 0 {
+        let t = s.skip(1);
+        assert forall|i: int| 0 <= i < t.len() implies item_ok(#[trigger] t[i]) by {
+            assert(t[i] == s[i + 1]);
+        }
+        assert(item_ok(s[0]));
+        lemma_flat_len(t);
+    }
+}
+
+pub proof fn lemma_items_ok_skip(s: Seq<ItemPtr>, n: int)
+    requires
+        items_ok(s),
+        0 <= n <= s.len(),
+    ensures
+        items_ok(s.skip(n)),
+{
+    let t = s.skip(n);
+    assert forall|i: int| 0 <= i < t.len() implies item_ok(#[trigger] t[i]) by {
+        assert(t[i] == s[i + n]);
+    }
+}
+
+/// position and occurrence, one block further
+pub proof fn lemma_pos_bounds(s: Seq<ItemPtr>, id: ID)
+    requires
+        items_ok(s),
+    ensures
+        occurs(s, id) ==> 0 <= pos(s, id) < total(s),
+        !occurs(s, id) ==> pos(s, id) == total(s),
+        s.len() > 0 && !covers_id(s[0], id) ==> occurs(s, id) == occurs(s.skip(1), id) && pos(s, id) == s[0].len + pos(s.skip(1), id),
+        s.len() > 0 && covers_id(s[0], id) ==> occurs(s, id) && pos(s, id) == id.clock - s[0].id.clock && pos(s, id) < s[0].len,
+        total(s) >= 0,
+    decreases s.len(),
+{
+    if s.len() > 0 {
+        lemma_items_ok_skip(s, 1);
+        assert(item_ok(s[0]));
+        lemma_pos_bounds(s.skip(1), id);
+    }
+}
+
+/// the subrange of S that starts inside the first block
+pub proof fn lemma_flat_split(s: Seq<ItemPtr>, a: int, b: int)
+    requires
+        items_ok(s),
+        s.len() > 0,
+        0 <= a <= s[0].len,
+        a <= b <= total(s),
+    ensures
+        b <= s[0].len ==> flat(s).subrange(a, b) == ids_of(s[0], a, b - 1),
+        b >= s[0].len ==> flat(s).subrange(a, b) == ids_of(s[0], a, s[0].len - 1) + flat(s.skip(1)).subrange(0, b - s[0].len),
+{
+    let p = s[0];
+    let t = s.skip(1);
+    lemma_items_ok_skip(s, 1);
+    lemma_flat_len(s);
+    lemma_flat_len(t);
+    assert(item_ok(p));
+    assert(block_ids(p).len() == p.len);
+    if b <= p.len {
+        assert(flat(s).subrange(a, b) =~= ids_of(p, a, b - 1));
+    }
+    if b >= p.len {
+        assert(flat(s).subrange(a, b) =~= ids_of(p, a, p.len - 1) + flat(t).subrange(0, b - p.len));
+    }
+}
+
+/// hi, one block further
+pub proof fn lemma_hi_shift(s: Seq<ItemPtr>, end: StickyIndex)
+    requires
+        items_ok(s),
+        s.len() > 0,
+        !(end.id_spec() is Some && covers_id(s[0], end.id_spec().unwrap())),
+    ensures
+        hi(s, end) == s[0].len + hi(s.skip(1), end),
+        0 <= hi(s.skip(1), end) <= total(s.skip(1)),
+{
+    lemma_items_ok_skip(s, 1);
+    lemma_flat_len(s.skip(1));
+    if end.id_spec() is Some {
+        lemma_pos_bounds(s, end.id_spec().unwrap());
+        lemma_pos_bounds(s.skip(1), end.id_spec().unwrap());
+    }
+}
+
+pub proof fn lemma_hi_bounds(s: Seq<ItemPtr>, end: StickyIndex)
+    requires
+        items_ok(s),
+    ensures
+        0 <= hi(s, end) <= total(s),
+{
+    lemma_flat_len(s);
+    if end.id_spec() is Some {
+        lemma_pos_bounds(s, end.id_spec().unwrap());
+    }
+}
+
+/// S[a .. b), empty if b < a
+pub open spec fn seg(s: Seq<ItemPtr>, a: int, b: int) -> Seq<ID> {
+    if a <= b {
+        flat(s).subrange(a, b)
+    } else {
+        Seq::empty()
+    }
+}
+
+/// LEMMA A (one block against the end boundary): what is left of S from offset `so` of the first block up to the end boundary
+/// is the cut of the first block followed -- unless that block is the end block -- by what is left of the other blocks.
+/// (`so` may lie BEHIND the end boundary: then nothing is left and the cut is None.)
+pub proof fn lemma_cut(s: Seq<ItemPtr>, so: int, end: StickyIndex)
+    requires
+        items_ok(s),
+        s.len() > 0,
+        0 <= so < s[0].len,
+    ensures
+        ({
+            let c = end_cut(s[0], so, end);
+            &&& seg(s, so, hi(s, end)) == cut_ids(s[0], c) + (if c.closes { Seq::<ID>::empty() } else { flat(s.skip(1)).subrange(0, hi(s.skip(1), end)) })
+            &&& match c.out {
+                Some((a, b)) => a == so && a <= b < s[0].len && cut_ids(s[0], c).len() == b - a + 1,
+                None => c.closes && hi(s, end) <= so,
+            }
+        }),
+{
+    let p = s[0];
+    let t = s.skip(1);
+    let c = end_cut(p, so, end);
+    assert(item_ok(p));
+    lemma_hi_bounds(s, end);
+    lemma_flat_len(s);
+    if end.id_spec() is Some && covers_id(p, end.id_spec().unwrap()) {
+        let e = end.id_spec().unwrap();
+        lemma_pos_bounds(s, e);
+        let h = hi(s, end);
+        assert(0 <= h <= p.len);
+        if so <= h {
+            lemma_flat_split(s, so, h);
+        }
+        assert(seg(s, so, h) =~= cut_ids(p, c) + Seq::<ID>::empty());
+    } else {
+        lemma_hi_shift(s, end);
+        let h = hi(s, end);
+        lemma_flat_split(s, so, h);
+    }
+}
+
+/// LEMMA B (the start boundary): on the domain, the expected units are what is left of the pending blocks from the landing
+/// block / offset on, up to the end boundary; nothing if the range already ended in the block the exclusive start left
+pub proof fn lemma_landing(s: Seq<ItemPtr>, start: StickyIndex, end: StickyIndex)
+    requires
+        items_ok(s),
+        dom(s, start, end),
+    ensures
+        ({
+            let l = start_landing(s, start, end);
+            &&& !l.found ==> expected(s, start, end) == Seq::<ID>::empty()
+            &&& l.found ==> 0 <= l.idx <= s.len()
+            &&& l.found && l.ended ==> expected(s, start, end) == Seq::<ID>::empty()
+            &&& l.found && l.idx == s.len() ==> expected(s, start, end) == Seq::<ID>::empty()
+            &&& l.found && !l.ended && l.idx < s.len() ==> {
+                let t = s.skip(l.idx);
+                &&& 0 <= l.off < s[l.idx].len
+                &&& expected(s, start, end) == seg(t, l.off, hi(t, end))
+            }
+        }),
+    decreases s.len(),
+{
+    let l = start_landing(s, start, end);
+    lemma_hi_bounds(s, end);
+    lemma_flat_len(s);
+    match start.id_spec() {
+        None => {
+            if s.len() > 0 {
+                assert(s.skip(0) =~= s);
+                assert(item_ok(s[0]));
+            } else {
+                assert(flat(s).subrange(0, hi(s, end)) =~= Seq::<ID>::empty());
+            }
+        },
+        Some(a) => {
+            lemma_find_bounds(s, a);
+            lemma_pos_bounds(s, a);
+            if s.len() == 0 {
+            } else if covers_id(s[0], a) {
+                let p = s[0];
+                let t = s.skip(1);
+                assert(item_ok(p));
+                lemma_items_ok_skip(s, 1);
+                if end.id_spec() is Some {
+                    lemma_pos_bounds(s, end.id_spec().unwrap());
+                }
+                if l.idx == 0 {
+                    assert(s.skip(0) =~= s);
+                } else {
+                    // Assoc::After on the last unit of the first block: the range begins with the next block
+                    assert(l.idx == 1 && lo(s, start) == p.len);
+                    if l.ended {
+                        // ... but it also ends in the first block
+                        assert(hi(s, end) <= p.len);
+                        assert(expected(s, start, end) =~= Seq::<ID>::empty());
+                    } else {
+                        lemma_hi_shift(s, end);
+                        lemma_flat_len(t);
+                        if t.len() > 0 {
+                            lemma_flat_split(s, p.len as int, hi(s, end));
+                            assert(ids_of(p, p.len as int, p.len - 1) =~= Seq::<ID>::empty());
+                            assert(expected(s, start, end) =~= flat(t).subrange(0, hi(t, end)));
+                            assert(item_ok(t[0]));
+                            assert(t[0] == s[1]);
+                        } else {
+                            assert(expected(s, start, end) =~= Seq::<ID>::empty());
+                        }
+                    }
+                }
+            } else {
+                let p = s[0];
+                let t = s.skip(1);
+                assert(item_ok(p));
+                lemma_items_ok_skip(s, 1);
+                lemma_pos_bounds(t, a);
+                lemma_find_bounds(t, a);
+                lemma_flat_len(t);
+                let lt = start_landing(t, start, end);
+                if occurs(s, a) {
+                    // the landing of s is the landing of t, one block further
+                    assert(find(s, a) == 1 + find(t, a));
+                    assert(s[find(s, a)] == t[find(t, a)]);
+                    assert(l.found && lt.found && l.idx == lt.idx + 1 && l.off == lt.off && l.ended == lt.ended);
+                    assert(lo(s, start) == p.len + lo(t, start));
+                    if end.id_spec() is Some {
+                        let e = end.id_spec().unwrap();
+                        lemma_pos_bounds(s, e);
+                        lemma_pos_bounds(t, e);
+                        lemma_find_bounds(s, e);
+                        lemma_find_bounds(t, e);
+                        // the end anchor is not in the first block (domain: its block is not in front of the start block)
+                        if occurs(s, e) {
+                            assert(find(s, e) >= 1);
+                        }
+                        assert(!covers_id(p, e));
+                    }
+                    lemma_hi_shift(s, end);
+                    assert(dom(t, start, end));
+                    lemma_landing(t, start, end);
+                    lemma_hi_bounds(t, end);
+                    if lo(t, start) <= hi(t, end) {
+                        assert(flat(s).subrange(lo(s, start), hi(s, end)) =~= flat(t).subrange(lo(t, start), hi(t, end)));
+                    }
+                    assert(expected(s, start, end) == expected(t, start, end));
+                    if lt.idx < t.len() {
+                        assert(t.skip(lt.idx) =~= s.skip(l.idx));
+                        assert(s[l.idx] == t[lt.idx]);
+                    }
+                } else {
+                    assert(lo(s, start) == total(s));
+                    assert(expected(s, start, end) =~= Seq::<ID>::empty());
+                }
+            }
+        },
+    }
+}
+
+/// STEP THEOREM: on the domain one call of `next` (as specified by `next_spec`) returns None exactly when nothing is left, and
+/// otherwise returns a NON-EMPTY slice of ONE pending block, in order: the next units still to be yielded
+pub proof fn theorem_step(v: View)
+    requires
+        items_ok(v.s),
+        view_dom(v),
+    ensures
+        ({
+            let (w, r) = next_spec(v);
+            &&& items_ok(w.s) && view_dom(w) && w.start == v.start && w.end == v.end
+            &&& forall|p: ItemPtr| w.s.contains(p) ==> v.s.contains(p)
+            &&& r is None <==> rem(v).len() == 0
+            &&& r is None ==> rem(w).len() == 0
+            &&& r is Some ==> {
+                let sl = r.unwrap();
+                &&& v.s.contains(sl.ptr)
+                &&& sl.start <= sl.end < sl.ptr.len
+                &&& slice_ids(sl).len() == sl.end - sl.start + 1
+                &&& rem(v) == slice_ids(sl) + rem(w)
+            }
+        }),
+{
+    let (w, r) = next_spec(v);
+    match v.state {
+        RangeIterState::Closed => {},
+        RangeIterState::InRange => {
+            lemma_hi_bounds(v.s, v.end);
+            if v.s.len() > 0 {
+                assert(item_ok(v.s[0]));
+                lemma_cut(v.s, 0, v.end);
+                lemma_items_ok_skip(v.s, 1);
+                lemma_hi_bounds(v.s.skip(1), v.end);
+                lemma_skip_contains(v.s, 1);
+            } else {
+                assert(total(v.s) == 0);
+            }
+        },
+        RangeIterState::Opened => {
+            lemma_landing(v.s, v.start, v.end);
+            let l = start_landing(v.s, v.start, v.end);
+            if l.found && l.ended {
+                lemma_items_ok_skip(v.s, l.idx);
+                lemma_skip_contains(v.s, l.idx);
+            } else if l.found && l.idx < v.s.len() {
+                let t = v.s.skip(l.idx);
+                lemma_items_ok_skip(v.s, l.idx);
+                assert(t[0] == v.s[l.idx]);
+                assert(t.skip(1) =~= v.s.skip(l.idx + 1));
+                lemma_cut(t, l.off, v.end);
+                lemma_items_ok_skip(t, 1);
+                lemma_hi_bounds(t.skip(1), v.end);
+                lemma_skip_contains(v.s, l.idx + 1);
+            } else {
+                assert(flat(Seq::<ItemPtr>::empty()) =~= Seq::<ID>::empty());
+                assert(total(Seq::<ItemPtr>::empty()) == 0);
+                lemma_hi_bounds(Seq::<ItemPtr>::empty(), v.end);
+                lemma_flat_len(Seq::<ItemPtr>::empty());
+                assert(expected(Seq::<ItemPtr>::empty(), v.start, v.end) =~= Seq::<ID>::empty());
+            }
+        },
+    }
+}
+
+/// what is left is a suffix of what was pending
+pub proof fn lemma_skip_contains(s: Seq<ItemPtr>, n: int)
+    requires
+        0 <= n <= s.len(),
+    ensures
+        forall|p: ItemPtr| s.skip(n).contains(p) ==> s.contains(p),
+{
+    assert forall|p: ItemPtr| s.skip(n).contains(p) implies s.contains(p) by {
+        let i = choose|i: int| 0 <= i < s.skip(n).len() && s.skip(n)[i] == p;
+        assert(s[i + n] == p);
+    }
+}
+
+// ---------------------------------------------------------------------------------------------
+// LIFETIME READING: iterating to the end
+// ---------------------------------------------------------------------------------------------
+/// the units of a run of slices, in the order in which they were yielded
+pub open spec fn concat_ids(outs: Seq<ItemSlice>) -> Seq<ID>
+    decreases outs.len(),
+{
+    if outs.len() == 0 {
+        Seq::empty()
+    } else {
+        slice_ids(outs[0]) + concat_ids(outs.skip(1))
+    }
+}
+
+/// `vs[i]` is the iterator before the i-th call of `next`, `outs[i]` the slice that call returns, and the call after the last
+/// of them returns None
+pub open spec fn is_trace(vs: Seq<View>, outs: Seq<ItemSlice>) -> bool {
+    &&& vs.len() == outs.len() + 1
+    &&& forall|i: int| 0 <= i < outs.len() ==> next_spec(#[trigger] vs[i]) == (vs[i + 1], Some(outs[i]))
+    &&& next_spec(vs.last()).1 is None
+}
+
+/// every slice is a non-empty range of ONE block of the sequence
+pub open spec fn slices_ok(s: Seq<ItemPtr>, outs: Seq<ItemSlice>) -> bool {
+    forall|i: int| 0 <= i < outs.len() ==> s.contains((#[trigger] outs[i]).ptr) && outs[i].start <= outs[i].end < outs[i].ptr.len
+}
+
+/// DRAIN LEMMA: all the calls together yield exactly the units still to be yielded at the beginning -- nothing else, in order
+pub proof fn lemma_drain(vs: Seq<View>, outs: Seq<ItemSlice>)
+    requires
+        is_trace(vs, outs),
+        items_ok(vs[0].s),
+        view_dom(vs[0]),
+    ensures
+        concat_ids(outs) == rem(vs[0]),
+        slices_ok(vs[0].s, outs),
+    decreases outs.len(),
+{
+    hide(next_spec);
+    hide(rem);
+    theorem_step(vs[0]);
+    if outs.len() == 0 {
+        assert(vs[0] == vs.last());
+        assert(rem(vs[0]) =~= Seq::<ID>::empty());
+    } else {
+        let vt = vs.skip(1);
+        let ot = outs.skip(1);
+        assert(next_spec(vs[0]) == (vs[1], Some(outs[0])));
+        assert(vt[0] == vs[1]);
+        assert forall|i: int| 0 <= i < ot.len() implies next_spec(#[trigger] vt[i]) == (vt[i + 1], Some(ot[i])) by {
+            assert(vt[i] == vs[i + 1]);
+            assert(vt[i + 1] == vs[i + 2]);
+            assert(ot[i] == outs[i + 1]);
+        }
+        assert(vt.last() == vs.last());
+        lemma_drain(vt, ot);
+        assert forall|i: int| 0 <= i < outs.len() implies vs[0].s.contains((#[trigger] outs[i]).ptr) && outs[i].start <= outs[i].end < outs[i].ptr.len by {
+            if i > 0 {
+                assert(ot[i - 1] == outs[i]);
+                assert(vs[1].s.contains(ot[i - 1].ptr));
+            }
+        }
+    }
+}
+
+// ---- what "position in S" means -----------------------------------------------------------------
+/// every unit of S lies in one of the blocks
+pub proof fn lemma_flat_covered(s: Seq<ItemPtr>, k: int)
+    requires
+        items_ok(s),
+        0 <= k < total(s),
+    ensures
+        exists|j: int| 0 <= j < s.len() && covers_id(#[trigger] s[j], flat(s)[k]),
+    decreases s.len(),
+{
+    lemma_flat_len(s);
+    if s.len() > 0 {
+        let p = s[0];
+        let t = s.skip(1);
+        assert(item_ok(p));
+        lemma_items_ok_skip(s, 1);
+        lemma_flat_len(t);
+        assert(block_ids(p).len() == p.len);
+        if k < p.len {
+            assert(flat(s)[k] == block_ids(p)[k]);
+            assert(covers_id(s[0], flat(s)[k]));
+        } else {
+            assert(flat(s)[k] == flat(t)[k - p.len]);
+            lemma_flat_covered(t, k - p.len);
+            let j = choose|j: int| 0 <= j < t.len() && covers_id(#[trigger] t[j], flat(t)[k - p.len]);
+            assert(t[j] == s[j + 1]);
+        }
+    }
+}
+
+/// an anchor that occurs sits at `pos`: S[pos(s, id)] == id
+pub proof fn lemma_pos_index(s: Seq<ItemPtr>, id: ID)
+    requires
+        items_ok(s),
+        occurs(s, id),
+    ensures
+        0 <= pos(s, id) < total(s),
+        flat(s)[pos(s, id)] == id,
+    decreases s.len(),
+{
+    lemma_pos_bounds(s, id);
+    lemma_flat_len(s);
+    if s.len() > 0 {
+        let p = s[0];
+        let t = s.skip(1);
+        assert(item_ok(p));
+        lemma_items_ok_skip(s, 1);
+        lemma_flat_len(t);
+        assert(block_ids(p).len() == p.len);
+        if covers_id(p, id) {
+            assert(flat(s)[pos(s, id)] == block_ids(p)[pos(s, id)]);
+        } else {
+            lemma_pos_index(t, id);
+            assert(flat(s)[pos(s, id)] == flat(t)[pos(s, id) - p.len]);
+        }
+    }
+}
+
+pub proof fn lemma_disjoint_skip(s: Seq<ItemPtr>)
+    requires
+        disjoint(s),
+        s.len() > 0,
+    ensures
+        disjoint(s.skip(1)),
+{
+    let t = s.skip(1);
+    assert forall|i: int, j: int, id: ID| 0 <= i < j < t.len() && #[trigger] covers_id(t[i], id) implies !#[trigger] covers_id(t[j], id) by {
+        assert(t[i] == s[i + 1] && t[j] == s[j + 1]);
+        assert(covers_id(s[i + 1], id));
+    }
+}
+
+/// with pairwise disjoint blocks a unit id occurs in S exactly once: at `pos`
+pub proof fn lemma_pos_unique(s: Seq<ItemPtr>, k: int)
+    requires
+        items_ok(s),
+        disjoint(s),
+        0 <= k < total(s),
+    ensures
+        occurs(s, flat(s)[k]),
+        pos(s, flat(s)[k]) == k,
+    decreases s.len(),
+{
+    lemma_flat_len(s);
+    if s.len() > 0 {
+        let p = s[0];
+        let t = s.skip(1);
+        let id = flat(s)[k];
+        assert(item_ok(p));
+        lemma_items_ok_skip(s, 1);
+        lemma_flat_len(t);
+        lemma_pos_bounds(s, id);
+        assert(block_ids(p).len() == p.len);
+        if k < p.len {
+            assert(id == block_ids(p)[k]);
+            assert(covers_id(p, id));
+        } else {
+            assert(id == flat(t)[k - p.len]);
+            lemma_flat_covered(t, k - p.len);
+            let j = choose|j: int| 0 <= j < t.len() && covers_id(#[trigger] t[j], flat(t)[k - p.len]);
+            assert(t[j] == s[j + 1]);
+            assert(covers_id(s[j + 1], id));
+            if covers_id(s[0], id) {
+                assert(!covers_id(s[j + 1], id));
+            }
+            lemma_disjoint_skip(s);
+            lemma_pos_unique(t, k - p.len);
+        }
+    }
+}
+
+/// no unit id twice in S (hence in no sub-sequence of it)
+pub proof fn lemma_flat_nodup(s: Seq<ItemPtr>)
+    requires
+        items_ok(s),
+        disjoint(s),
+    ensures
+        flat(s).no_duplicates(),
+{
+    lemma_flat_len(s);
+    assert forall|i: int, j: int| 0 <= i < flat(s).len() && 0 <= j < flat(s).len() && i != j implies flat(s)[i] != flat(s)[j] by {
+        lemma_pos_unique(s, i);
+        lemma_pos_unique(s, j);
+    }
+}
+
+/// an anchor that does not occur is not a unit of S
+pub proof fn lemma_not_occurs(s: Seq<ItemPtr>, id: ID)
+    requires
+        items_ok(s),
+        !occurs(s, id),
+    ensures
+        !flat(s).contains(id),
+{
+    lemma_flat_len(s);
+    lemma_find_bounds(s, id);
+    if flat(s).contains(id) {
+        let k = choose|k: int| 0 <= k < flat(s).len() && flat(s)[k] == id;
+        lemma_flat_covered(s, k);
+        let j = choose|j: int| 0 <= j < s.len() && covers_id(#[trigger] s[j], flat(s)[k]);
+        assert(!covers_id(s[j], id));
+    }
+}
+
+/// C20 KERNEL, forward traversal: a `RangeIter` created over the blocks `s` (S = flat(s)) with the boundaries `start` / `end`
+/// and iterated to the end yields -- as non-empty slices of single blocks, in order -- exactly the units of S from position
+/// lo to position hi (exclusive), where
+///     lo = 0                 if `start` has no anchor,     = p      if the anchor is S[p] and start.assoc == Before (inclusive),
+///                                                          = p + 1  if start.assoc == After (exclusive)
+///     hi = |S|               if `end` has no anchor or its anchor does not occur in S (DERIVED: the iteration runs to the end),
+///        = q + 1             if the anchor is S[q] and end.assoc == After (inclusive),   = q  if end.assoc == Before (exclusive)
+/// and hi <= lo gives the EMPTY sequence (e.g. an exclusive start and an end at the same element) -- on the WHOLE domain of the
+/// property: whenever both anchors occur, the end anchor is not in front of the start anchor (`prop_dom`, q >= p).  Nothing is
+/// yielded when the start anchor does not occur.  No id is yielded twice.
+pub proof fn theorem_quote_range(s: Seq<ItemPtr>, start: StickyIndex, end: StickyIndex, vs: Seq<View>, outs: Seq<ItemSlice>)
+    requires
+        items_ok(s),
+        disjoint(s),
+        prop_dom(s, start, end),
+        vs.len() > 0 && vs[0] == (View { s: s, state: RangeIterState::Opened, start: start, end: end }),
+        is_trace(vs, outs),
+    ensures
+        slices_ok(s, outs),
+        concat_ids(outs) == expected(s, start, end),
+        concat_ids(outs).no_duplicates(),
+        // the boundaries are positions of S
+        0 <= lo(s, start) <= total(s) && 0 <= hi(s, end) <= total(s) && total(s) == flat(s).len(),
+        start.id_spec() is Some && occurs(s, start.id_spec().unwrap()) ==> flat(s)[pos(s, start.id_spec().unwrap())] == start.id_spec().unwrap(),
+        end.id_spec() is Some && occurs(s, end.id_spec().unwrap()) ==> flat(s)[pos(s, end.id_spec().unwrap())] == end.id_spec().unwrap(),
+        start.id_spec() is Some && !occurs(s, start.id_spec().unwrap()) ==> !flat(s).contains(start.id_spec().unwrap()) && outs.len() == 0,
+        end.id_spec() is Some && !occurs(s, end.id_spec().unwrap()) ==> !flat(s).contains(end.id_spec().unwrap()) && hi(s, end) == flat(s).len(),
+{
+    lemma_dom_of_order(s, start, end);
+    lemma_drain(vs, outs);
+    lemma_flat_nodup(s);
+    lemma_flat_len(s);
+    lemma_hi_bounds(s, end);
+    let ex = expected(s, start, end);
+    if start.id_spec() is Some {
+        let a = start.id_spec().unwrap();
+        lemma_pos_bounds(s, a);
+        if occurs(s, a) {
+            lemma_pos_index(s, a);
+        } else {
+            lemma_not_occurs(s, a);
+            assert(ex.len() == 0);
+            if outs.len() > 0 {
+                theorem_step(vs[0]);
+                assert(next_spec(vs[0]) == (vs[1], Some(outs[0])));
+            }
+        }
+    }
+    if end.id_spec() is Some {
+        let e = end.id_spec().unwrap();
+        if occurs(s, e) {
+            lemma_pos_index(s, e);
+        } else {
+            lemma_not_occurs(s, e);
+        }
+    }
+    assert forall|i: int, j: int| 0 <= i < ex.len() && 0 <= j < ex.len() && i != j implies ex[i] != ex[j] by {
+        assert(ex[i] == flat(s)[lo(s, start) + i]);
+        assert(ex[j] == flat(s)[lo(s, start) + j]);
+    }
+}
+
+/// positions and blocks are ordered alike: an anchor in an earlier block sits at an earlier position
+pub proof fn lemma_find_mono(s: Seq<ItemPtr>, a: ID, e: ID)
+    requires
+        items_ok(s),
+        occurs(s, a),
+        occurs(s, e),
+        find(s, e) < find(s, a),
+    ensures
+        pos(s, e) < pos(s, a),
+    decreases s.len(),
+{
+    lemma_pos_bounds(s, a);
+    lemma_pos_bounds(s, e);
+    lemma_find_bounds(s, a);
+    lemma_find_bounds(s, e);
+    if s.len() > 0 {
+        assert(item_ok(s[0]));
+        if covers_id(s[0], e) {
+            // e in the first block, a behind it
+            assert(!covers_id(s[0], a));
+            lemma_items_ok_skip(s, 1);
+            lemma_pos_bounds(s.skip(1), a);
+        } else {
+            assert(!covers_id(s[0], a));
+            lemma_items_ok_skip(s, 1);
+            lemma_find_mono(s.skip(1), a, e);
+        }
+    }
+}
+
+/// THE DOMAIN OF THE PROPERTY ("the end anchor occurs at or behind the start anchor", pos(start) <= pos(end)) lies inside `dom`;
+/// so does the input class of the repaired FINDING Q1 (same anchor), where the expected sequence is empty
+pub proof fn lemma_dom_of_order(s: Seq<ItemPtr>, start: StickyIndex, end: StickyIndex)
+    requires
+        items_ok(s),
+    ensures
+        prop_dom(s, start, end) ==> dom(s, start, end),
+        finding_q1_same_anchor_exclusive_start(start, end) ==> dom(s, start, end) && expected(s, start, end).len() == 0,
+{
+    if start.id_spec() is Some && end.id_spec() is Some {
+        let a = start.id_spec().unwrap();
+        let e = end.id_spec().unwrap();
+        if occurs(s, a) && occurs(s, e) && find(s, e) < find(s, a) {
+            lemma_find_mono(s, a, e);
+        }
+        lemma_pos_bounds(s, a);
+    }
+    lemma_flat_len(s);
+    if finding_q1_same_anchor_exclusive_start(start, end) {
+        assert(expected(s, start, end) =~= Seq::<ID>::empty());
+    }
+}
+
+/// SATISFIABILITY of the backward contract (no code on the pinned tree meets it, see FINDING QB): for a single pending block `p`,
+/// an inclusive start at offset i and an inclusive end at offset j >= i, the call that returns the slice (p, i, j), hands out the
+/// block and closes the iterator is a correct `next_back`
+pub proof fn example_next_back_single_block(p: ItemPtr, i: u32, j: u32, start: StickyIndex, end: StickyIndex)
+    requires
+        item_ok(p),
+        i <= j < p.len,
+        start.id_spec() == Some(ID { client: p.id.client, clock: (p.id.clock + i) as u32 }) && start.assoc == Assoc::Before,
+        end.id_spec() == Some(ID { client: p.id.client, clock: (p.id.clock + j) as u32 }) && end.assoc == Assoc::After,
+    ensures
+        ({
+            let v = View { s: seq![p], state: RangeIterState::Opened, start: start, end: end };
+            let w = View { s: Seq::empty(), state: RangeIterState::Closed, start: start, end: end };
+            dom_back(v) && next_back_ok(v, w, Some(ItemSlice { ptr: p, start: i, end: j }))
+        }),
+{
+    let s = seq![p];
+    let a = start.id_spec().unwrap();
+    let e = end.id_spec().unwrap();
+    assert(s[0] == p);
+    assert(items_ok(s));
+    assert(covers_id(s[0], a) && covers_id(s[0], e));
+    lemma_pos_bounds(s, a);
+    lemma_pos_bounds(s, e);
+    assert(total(s.skip(1)) == 0);
+    lemma_flat_split(s, i as int, j + 1);
+    assert(Seq::<ID>::empty() + ids_of(p, i as int, j as int) =~= ids_of(p, i as int, j as int));
+    assert(Seq::<ItemPtr>::empty().is_prefix_of(s));
+}
+
+// ---------------------------------------------------------------------------------------------
+// the real code
+// ---------------------------------------------------------------------------------------------
 impl Item {
     /*@extract yrs/src/block.rs | impl Item | fn id | label=item_id
     @ret r
@@ -61,8 +1482,10 @@ impl Item {
     /*@extract yrs/src/block.rs | impl Item | fn contains | label=item_contains
     @ret r
     @sig
-        requires self.id.clock + self.len <= u32::MAX,
-        ensures r == (self.id.client == id.client && self.id.clock <= id.clock < self.id.clock + self.len),
+        requires
+            self.id.clock + self.len <= u32::MAX,
+        ensures
+            r == covers_id(self, *id),
     @*/
 }
 
@@ -80,10 +1503,38 @@ impl StickyIndex {
     @ret r
     @sig
         ensures
-            r == (match self.scope { IndexScope::Relative(id) => Some(&id), _ => None }),
+            r is Some <==> self.id_spec() is Some,
+            r is Some ==> *r.unwrap() == self.id_spec().unwrap(),
     @*/
 }
 
+/// REWRITE of a construct Verus mishandles (same meaning, logged SUBs on `next` and -- with `self.start` / `start` -- `next_back`):
+///     match self.end.id() { Some(end) if ptr.contains(end) => A, _ => B }
+/// is spelled
+///     match vx_only_in(self.end.id(), ptr) { VxHit::Hit(end) => A, _ => B }
+/// i.e. the guard moved into the scrutinee (VERIFIED helper below, not trusted).  Reason (measured): Verus loses `final(self)` of
+/// the fields not mentioned afterwards (`final(self).iter` / `final(self).start`) on the path where a match guard containing a
+/// call evaluates to false and the other arm assigns a field of `*self`.  (`begin`, whose guarded arms all `break` or reassign
+/// `curr` from `self.iter`, is not affected and is verified as written.)  The two SUBs are tied by the type `VxHit`: if only one of them applies to an edited
+/// function the result does not type-check (tool error), it is never a different program that verifies.
+pub enum VxHit<'a> {
+    Hit(&'a ID),
+    Miss,
+}
+
+pub fn vx_only_in<'a>(o: Option<&'a ID>, ptr: ItemPtr) -> (r: VxHit<'a>)
+    requires
+        ptr.id.clock + ptr.len <= u32::MAX,
+    ensures
+        r == (if o is Some && covers_id(ptr, *o.unwrap()) { VxHit::Hit(o.unwrap()) } else { VxHit::Miss }),
+{
+    match o {
+        Some(id) => if ptr.contains(id) { VxHit::Hit(id) } else { VxHit::Miss },
+        None => VxHit::Miss,
+    }
+}
+
+/// STAND-IN for the inner iterator `I: Iterator<Item = ItemPtr>`: a ghost sequence of the blocks not handed out yet
 pub trait BlockSeqIter {
     spec fn pending(&self) -> Seq<ItemPtr>;
 
@@ -94,20 +1545,257 @@ pub trait BlockSeqIter {
     ;
 }
 
+pub open spec fn begin_inv(s0: Seq<ItemPtr>, pend: Seq<ItemPtr>, curr: Option<ItemPtr>, start: StickyIndex) -> bool {
+    let n = s0.len() as int;
+    let m = pend.len() as int;
+    &&& m <= n
+    &&& pend =~= s0.skip(n - m)
+    &&& match curr {
+        Some(p) => m < n && p == s0[n - m - 1] && (n - m - 1 > 0 ==> start.id_spec() is Some) && (start.id_spec() is Some ==> n - m - 1 <= find(s0, start.id_spec().unwrap())),
+        None => m == 0 && (n > 0 ==> start.id_spec() is Some) && (start.id_spec() is Some ==> n <= find(s0, start.id_spec().unwrap())),
+    }
+}
+
+pub open spec fn begin_post(s0: Seq<ItemPtr>, state0: RangeIterState, start: StickyIndex, end: StickyIndex, state: RangeIterState, pend: Seq<ItemPtr>, curr: Option<ItemPtr>, offset: u32) -> bool {
+    let l = start_landing(s0, start, end);
+    &&& state == (if !l.found { state0 } else if l.ended { RangeIterState::Closed } else { RangeIterState::InRange })
+    &&& offset == l.off
+    &&& curr == (if l.found && !l.ended && l.idx < s0.len() { Some(s0[l.idx]) } else { None })
+    &&& pend =~= (if l.ended { s0.skip(l.idx) } else if l.idx < s0.len() { s0.skip(l.idx + 1) } else { Seq::empty() })
+}
+
 impl<I: BlockSeqIter> RangeIter<I> {
+    pub open spec fn view(&self) -> View {
+        View { s: self.iter.pending(), state: self.state, start: self.start, end: self.end }
+    }
+
     /*@extract yrs/src/iter.rs | impl<I> RangeIter<I> where I: Iterator<Item = ItemPtr>, | fn new | label=range_new
     @ret r
     @sig
-        ensures r.iter == iter, r.start == start, r.end == end, r.state == RangeIterState::Opened,
+        ensures
+            r.view() == (View { s: iter.pending(), state: RangeIterState::Opened, start: start, end: end }),
     @*/
 
     /*@extract yrs/src/iter.rs | impl<I> RangeIter<I> where I: Iterator<Item = ItemPtr>, | fn begin | label=range_begin
     @ret r
     @sig
         requires
-            forall|i: int| 0 <= i < old(self).iter.pending().len() ==> (#[trigger] old(self).iter.pending()[i]).id.clock + old(self).iter.pending()[i].len <= u32::MAX,
+            items_ok(old(self).iter.pending()),
+        ensures
+            final(self).start == old(self).start,
+            final(self).end == old(self).end,
+            begin_post(old(self).iter.pending(), old(self).state, old(self).start, old(self).end, final(self).state, final(self).iter.pending(), r, *final(start_offset)),
+    @start
+        let ghost s0 = self.iter.pending();
+        proof {
+            if self.start.id_spec() is Some {
+                lemma_find_bounds(s0, self.start.id_spec().unwrap());
+            }
+        }
+    @loop 1
+        invariant_except_break
+            self.state == old(self).state,
+            offset == 0,
+            begin_inv(s0, self.iter.pending(), curr, self.start),
+        invariant
+            s0 == old(self).iter.pending(),
+            items_ok(s0),
+            self.start == old(self).start,
+            self.end == old(self).end,
+            self.start.id_spec() is Some ==> {
+                let a = self.start.id_spec().unwrap();
+                &&& 0 <= find(s0, a) <= s0.len()
+                &&& forall|i: int| 0 <= i < find(s0, a) ==> !covers_id(#[trigger] s0[i], a)
+                &&& find(s0, a) < s0.len() ==> covers_id(s0[find(s0, a)], a)
+            },
+        ensures
+            begin_post(s0, old(self).state, self.start, self.end, self.state, self.iter.pending(), curr, offset),
+        decreases
+            self.iter.pending().len() + (if curr is Some { 1int } else { 0int }),
+    @*/
+    // real: `impl<I> Iterator for RangeIter<I>`, emitted as an inherent method (a trait-method impl cannot carry `requires`)
+    /*@extract yrs/src/iter.rs | impl<I> Iterator for RangeIter<I> where I: Iterator<Item = ItemPtr>, | fn next | label=range_next | rules=SUB(from=Option<Self::Item>;;to=Option<ItemSlice>) SUB(from=match self.end.id() {;;to=match vx_only_in(self.end.id(), ptr) {) SUB(from=Some(end) if ptr.contains(end) => {;;to=VxHit::Hit(end) => {)
+    @ret r
+    @sig
+        requires
+            items_ok(old(self).iter.pending()),
+        ensures
+            next_post(old(self).view(), final(self).view(), r),
+            // FINDING Q1 (REPAIRED): an exclusive start and an end anchored at the same element -- the range is empty: nothing is
+            // yielded, now or later.  (Before the repair: `ItemSlice::new(ptr, off + 1, off)` / `offset -= 1` underflow when the
+            // anchor was not the last unit of its block; everything up to the end of the sequence when it was.)
+            old(self).state == RangeIterState::Opened && finding_q1_same_anchor_exclusive_start(old(self).start, old(self).end) ==> r is None && rem(final(self).view()).len() == 0,
+    @start
+        proof {
+            let v0 = self.view();
+            if v0.state == RangeIterState::Opened && finding_q1_same_anchor_exclusive_start(v0.start, v0.end) {
+                lemma_dom_of_order(v0.s, v0.start, v0.end);
+                theorem_step(v0);
+            }
+        }
+    @before 1 `stmt:let end_offset`
+        proof {
+            // the block handed out is one of the pending blocks
+            let s0 = old(self).iter.pending();
+            if old(self).start.id_spec() is Some {
+                lemma_find_bounds(s0, old(self).start.id_spec().unwrap());
+            }
+            if old(self).state == RangeIterState::Opened {
+                assert(ptr == s0[start_landing(s0, old(self).start, old(self).end).idx]);
+            } else {
+                assert(ptr == s0[0]);
+            }
+            assert(item_ok(ptr));
+        }
     @*/
 }
+
+/// STAND-IN for `I: DoubleEndedIterator<Item = ItemPtr>`: the other end of the same ghost sequence
+pub trait BlockSeqDeIter: BlockSeqIter {
+    fn next_back(&mut self) -> (r: Option<ItemPtr>)
+        ensures
+            old(self).pending().len() == 0 ==> r is None && final(self).pending() == old(self).pending(),
+            old(self).pending().len() > 0 ==> r == Some(old(self).pending().last()) && final(self).pending() == old(self).pending().drop_last(),
+    ;
+}
+
+pub open spec fn back_inv(s0: Seq<ItemPtr>, pend: Seq<ItemPtr>, curr: Option<ItemPtr>, end: StickyIndex) -> bool {
+    let n = s0.len() as int;
+    let m = pend.len() as int;
+    &&& m <= n
+    &&& pend =~= s0.take(m)
+    &&& match curr {
+        Some(p) => m < n && p == s0[m] && (m < n - 1 ==> end.id_spec() is Some) && (end.id_spec() is Some ==> rfind(s0, end.id_spec().unwrap()) <= m),
+        None => m == 0 && (n > 0 ==> end.id_spec() is Some) && (end.id_spec() is Some ==> rfind(s0, end.id_spec().unwrap()) < 0),
+    }
+}
+
+pub open spec fn back_post(s0: Seq<ItemPtr>, state0: RangeIterState, end: StickyIndex, state: RangeIterState, pend: Seq<ItemPtr>, curr: Option<ItemPtr>, end_offset: u32) -> bool {
+    let j = back_entry(s0, end);
+    &&& state == (if j >= 0 { RangeIterState::InRange } else { state0 })
+    &&& curr == (if j >= 0 { Some(s0[j]) } else { None })
+    &&& pend =~= (if j >= 0 { s0.take(j) } else { Seq::empty() })
+    &&& j >= 0 ==> end_offset == back_entry_offset(s0[j], end)
+}
+
+impl<I: BlockSeqDeIter> RangeIter<I> {
+    // OBSERVATION QB (dead code).  The contract is what the code DOES (`next_back_code`), with the weakest precondition of its
+    // `ItemSlice::new`; `observation_qb_*` prove that this behaviour is not a correct backward traversal.
+    // real: `impl<I> DoubleEndedIterator for RangeIter<I>`, emitted as an inherent method
+    /*@extract yrs/src/iter.rs | impl<I> DoubleEndedIterator for RangeIter<I> where I: DoubleEndedIterator<Item = ItemPtr>, | fn next_back | label=range_next_back | rules=SUB(from=Option<Self::Item>;;to=Option<ItemSlice>) SUB(from=match self.start.id() {;;to=match vx_only_in(self.start.id(), ptr) {) SUB(from=Some(start) if ptr.contains(start) => {;;to=VxHit::Hit(start) => {)
+    @ret r
+    @sig
+        requires
+            items_ok(old(self).iter.pending()),
+            next_back_code_total(old(self).view()),
+        ensures
+            next_back_code_post(old(self).view(), final(self).view(), r),
+    @start
+        let ghost s0 = self.iter.pending();
+        proof {
+            if self.end.id_spec() is Some {
+                lemma_rfind_bounds(s0, self.end.id_spec().unwrap());
+            }
+        }
+    @loop 1
+        invariant_except_break
+            self.state == old(self).state,
+            back_inv(s0, self.iter.pending(), curr, self.end),
+        invariant
+            s0 == old(self).iter.pending(),
+            items_ok(s0),
+            self.start == old(self).start,
+            self.end == old(self).end,
+            self.end.id_spec() is Some ==> {
+                let e = self.end.id_spec().unwrap();
+                &&& -1 <= rfind(s0, e) < s0.len()
+                &&& forall|i: int| rfind(s0, e) < i < s0.len() ==> !covers_id(#[trigger] s0[i], e)
+                &&& rfind(s0, e) >= 0 ==> covers_id(s0[rfind(s0, e)], e)
+            },
+        ensures
+            back_post(s0, old(self).state, self.end, self.state, self.iter.pending(), curr, end_offset),
+        decreases
+            self.iter.pending().len() + (if curr is Some { 1int } else { 0int }),
+    @before 1 `stmt:let start_offset`
+        proof {
+            // the block handed out is one of the pending blocks
+            if old(self).state == RangeIterState::Opened {
+                assert(ptr == s0[back_entry(s0, old(self).end)]);
+            } else {
+                assert(ptr == s0[s0.len() - 1]);
+            }
+            assert(item_ok(ptr));
+        }
+    @*/
+}
+
+// ---------------------------------------------------------------------------------------------
+// the two boundary-offset computations once more, each lifted on its own (R18 statement regions; same source text), so that an
+// edit of one of them fails a contract clause of its own
+// ---------------------------------------------------------------------------------------------
+// begin: the statements of the arm `Some(start) if ptr.contains(start) => { .. }` in front of its `break;`
+/*@extract yrs/src/iter.rs | impl<I> RangeIter<I> where I: Iterator<Item = ItemPtr>, | region begin | stmt=stmt:assign state | stmtnth=2 | upto=stmt:if ~ self.start.assoc | tail=(offset, curr) | label=range_start_offset | rules=SUB(from=self.start.assoc;;to=assoc) SUB(from=self.iter.next();;to=iter.next()) SUB(from=self.state = ;;to=*state = ) SUB(from=self.end.id();;to=end_ix.id())
+@header
+    fn range_start_offset<I: BlockSeqIter>(iter: &mut I, state: &mut RangeIterState, start: &ID, assoc: Assoc, end_ix: &StickyIndex, ptr: ItemPtr, mut offset: u32, mut curr: Option<ItemPtr>) -> (r: (u32, Option<ItemPtr>))
+@sig
+    requires
+        item_ok(ptr),
+        covers_id(ptr, *start),
+        curr == Some(ptr),
+    ensures
+        // the start block opens the range -- or, if the exclusive start is its last unit and it also holds the end anchor, closes it
+        *final(state) == (if assoc == Assoc::After && start.clock - ptr.id.clock + 1 == ptr.len && end_ix.id_spec() is Some && covers_id(ptr, end_ix.id_spec().unwrap()) { RangeIterState::Closed } else { RangeIterState::InRange }),
+        // inclusive start (Assoc::Before): AT the anchor unit
+        assoc == Assoc::Before ==> r.0 == start.clock - ptr.id.clock && r.1 == curr && final(iter).pending() == old(iter).pending(),
+        // exclusive start (Assoc::After), anchor not the last unit of its block: directly behind it, in the same block
+        assoc == Assoc::After && start.clock - ptr.id.clock + 1 < ptr.len ==> r.0 == start.clock - ptr.id.clock + 1 && r.1 == curr && final(iter).pending() == old(iter).pending(),
+        // exclusive start on the LAST unit of its block: offset 0 of the next block -- if there is one, and unless the range ends here
+        assoc == Assoc::After && start.clock - ptr.id.clock + 1 == ptr.len ==> r.0 == 0,
+        assoc == Assoc::After && start.clock - ptr.id.clock + 1 == ptr.len && end_ix.id_spec() is Some && covers_id(ptr, end_ix.id_spec().unwrap()) ==> r.1 is None && final(iter).pending() == old(iter).pending(),
+        assoc == Assoc::After && start.clock - ptr.id.clock + 1 == ptr.len && !(end_ix.id_spec() is Some && covers_id(ptr, end_ix.id_spec().unwrap())) && old(iter).pending().len() > 0 ==> r.1 == Some(old(iter).pending()[0]) && final(iter).pending() == old(iter).pending().skip(1),
+        assoc == Assoc::After && start.clock - ptr.id.clock + 1 == ptr.len && !(end_ix.id_spec() is Some && covers_id(ptr, end_ix.id_spec().unwrap())) && old(iter).pending().len() == 0 ==> r.1 is None && final(iter).pending() == old(iter).pending(),
+@*/
+
+// next: everything from `let end_offset = ..` on
+/*@extract yrs/src/iter.rs | impl<I> Iterator for RangeIter<I> where I: Iterator<Item = ItemPtr>, | region next | stmt=stmt:let end_offset | stmtnth=1 | toend=1 | label=range_end_cut | rules=SUB(from=match self.end.id() {;;to=match vx_only_in(end_ix.id(), ptr) {) SUB(from=Some(end) if ptr.contains(end) => {;;to=VxHit::Hit(end) => {) SUB(from=self.end.assoc;;to=end_ix.assoc) SUB(from=self.state = ;;to=*state = )
+@header
+    fn range_end_cut(end_ix: &StickyIndex, state: &mut RangeIterState, ptr: ItemPtr, start_offset: u32) -> (r: Option<ItemSlice>)
+@sig
+    requires
+        item_ok(ptr),
+        start_offset < ptr.len,
+    ensures
+        r == cut_slice(ptr, end_cut(ptr, start_offset as int, *end_ix)),
+        *final(state) == (if end_cut(ptr, start_offset as int, *end_ix).closes { RangeIterState::Closed } else { *old(state) }),
+@*/
+
+// ---------------------------------------------------------------------------------------------
+// FINDING Q2 (REPAIRED).  Which boundaries can `Quotable::quote` produce?  It walks to the start index, then on to the end index
+// with `remaining = end_index - start_index + remaining;` -- a u32 subtraction.  `quote` takes ANY `RangeBounds<u32>`; before the
+// repair an inverted (= empty) range such as `3..=2` or `3..1` panicked here in a debug build, and a release build wrapped
+// around and RETURNED a quotation whose end anchor lies IN FRONT of its start anchor (outside `dom`), whose insertion panicked in
+// Store::materialize.  Now an end index below the start index is refused with QuoteError::OutOfBounds.  The guard and the
+// statement are lifted together (R18 statement region); the only precondition is the one the context establishes (`remaining` is
+// what is left of `start_index` after whole blocks have been subtracted).  `Ok(r)` = the statement was reached, r = the new
+// `remaining`.
+// ---------------------------------------------------------------------------------------------
+/// STAND-IN for `weak::QuoteError` (same single variant; the real enum carries thiserror's `#[error(..)]` helper attribute,
+/// which does not resolve without the derive)
+pub enum QuoteError {
+    OutOfBounds,
+}
+
+/*@extract yrs/src/types/weak.rs | trait Quotable: AsRef<Branch> + Sized | region quote | stmt=stmt:if ~ OutOfBounds | stmtnth=1 | upto=stmt:assign remaining ~ end_index | tail=Ok(remaining) | label=quote_end_remaining
+@header
+    fn quote_end_remaining(start_index: u32, end_index: u32, mut remaining: u32) -> (r: Result<u32, QuoteError>)
+@sig
+    requires
+        remaining <= start_index,
+    ensures
+        // TOTAL on every pair of indexes: an inverted range is an error, never an underflow
+        end_index < start_index ==> r is Err && r->Err_0 is OutOfBounds,
+        end_index >= start_index ==> r is Ok && r->Ok_0 == end_index - start_index + remaining,
+@*/
 
 } // verus!
 fn main() {}
